@@ -280,7 +280,7 @@ PROPS = {
         "assumptions": ["regions in bounds of the chunk"],
     },
     "C20": {
-        "lean_props": ["ZarrsModel.Props.C20"],
+        "lean_props": ["ZarrsModel.Props.C20", "ZarrsModel.Props.C20Ops"],
         "harness": "c20",
         "rule": "C01 configurations; after a short history, for each of 2-5 write operations (all six kinds) and reads: the operation is run through a fault-injecting store wrapper at concurrency 1; first "
                 "fault-free to count its N store operations and record the intended final state, then for EVERY k <= N with the k-th store operation failing: the result must be an error (never ok, never "
